@@ -197,6 +197,58 @@ func init() {
 		if !okPD {
 			sb.WriteString(untranslatable("pollDelayMs"))
 		}
+		// observation point (b): the time-flush batching loop and what TailFilesToChan does with a file.
+		// Every assignment to `batch` (the slice whose header travels on the channel) and every `if`/`for`
+		// condition of the loop, in source order: the heap model `Rare.C15.Batch` allocates a fresh array
+		// after every send exactly because `batch` is only ever re-assigned with `make(...)`.
+		const batcher = "pkg/extractor/batchers/batcher.go"
+		const tailb = "pkg/extractor/batchers/tailBatcher.go"
+		c.Fingerprint(batcher, "Batcher.syncReaderToBatcherWithTimeFlush")
+		c.Fingerprint(tailb, "TailFilesToChan")
+		if fd := c.Func(batcher, "Batcher.syncReaderToBatcherWithTimeFlush"); fd != nil && fd.Body != nil {
+			var assigns, sends []string
+			ast.Inspect(fd.Body, func(n ast.Node) bool {
+				switch v := n.(type) {
+				case *ast.AssignStmt:
+					for i, l := range v.Lhs {
+						if id, ok := l.(*ast.Ident); ok && id.Name == "batch" && i < len(v.Rhs) {
+							assigns = append(assigns, exprStr2(c, v.Rhs[i]))
+						}
+					}
+				case *ast.SendStmt:
+					sends = append(sends, exprStr2(c, v.Chan)+"<-"+exprStr2(c, v.Value))
+				}
+				return true
+			})
+			fmt.Fprintf(&sb, "/-- right-hand sides of every assignment to `batch` in `syncReaderToBatcherWithTimeFlush`, in source order -/\ndef batchAssigns : List String := %s\n\n", leanStrList(assigns))
+			fmt.Fprintf(&sb, "/-- every channel send of `syncReaderToBatcherWithTimeFlush`, in source order -/\ndef batchSends : List String := %s\n\n", leanStrList(sends))
+		} else {
+			sb.WriteString(untranslatable("batchAssigns"))
+			sb.WriteString(untranslatable("batchSends"))
+		}
+		conds("batchLoopConds", batcher, "Batcher.syncReaderToBatcherWithTimeFlush")
+		conds("tailFilesConds", tailb, "TailFilesToChan")
+		// calls made by the per-file goroutine of TailFilesToChan that matter to the model, in source order
+		if fd := c.Func(tailb, "TailFilesToChan"); fd != nil && fd.Body != nil {
+			var calls []string
+			ast.Inspect(fd.Body, func(n ast.Node) bool {
+				if ce, ok := n.(*ast.CallExpr); ok {
+					f := exprStr2(c, ce.Fun)
+					switch f {
+					case "followreader.New", "r.Drain", "out.syncReaderToBatcherWithTimeFlush", "out.syncReaderToBatcher":
+						args := make([]string, len(ce.Args))
+						for i, a := range ce.Args {
+							args[i] = exprStr2(c, a)
+						}
+						calls = append(calls, f+"("+strings.Join(args, ",")+")")
+					}
+				}
+				return true
+			})
+			fmt.Fprintf(&sb, "/-- follow-reader / batching calls of `TailFilesToChan`, in source order -/\ndef tailFilesCalls : List String := %s\n\n", leanStrList(calls))
+		} else {
+			sb.WriteString(untranslatable("tailFilesCalls"))
+		}
 		sb.WriteString("end Rare.Gen.C15\n")
 		return sb.String()
 	})
